@@ -105,6 +105,16 @@ add('assign-int-to-pointer', 'stmt', 'cptr = 5;')
 add('assign-discards-const', 'stmt', 'const int *pc = &cconst; cptr = pc;')
 add('init-incompatible-pointer', 'stmt', 'double *ip = &cobj;')
 add('assign-void-value', 'stmt', 'cobj = cvoidfn();')
+# every kind of expression that is not an lvalue x every operator that requires a modifiable lvalue or an lvalue (6.5.16p2, 6.5.2.4p1, 6.5.3.1p1, 6.5.3.2p1)
+_NONLV = (('folded-conditional-true', '(1 ? cobj : cobj)'), ('folded-conditional-false', '(0 ? cobj : cobj)'), ('folded-conditional-float', '(1.5 ? cobj : cobj)'),
+          ('conditional', '(cobj ? cobj : cobj)'), ('folded-conditional-member', '(1 ? cstr : cstr).m'), ('conditional-member', '(cobj ? cstr : cstr).m'),
+          ('comma', '(cobj, cobj)'), ('cast', '(int)cobj'), ('assignment', '(cobj = 1)'), ('compound-assignment', '(cobj += 1)'), ('pre-increment', '(++cobj)'),
+          ('post-increment', '(cobj++)'), ('unary-plus', '(+cobj)'), ('negation', '(-cobj)'), ('call', 'cfn0()'), ('sum', '(cobj + 0)'), ('address', '(&cobj)'),
+          ('folded-logical', '(1 && cobj)'), ('sizeof', 'sizeof(cobj)'), ('enum-constant', 'CE1'), ('compound-literal-value', '((int){1} + 0)'), ('generic-rvalue', '_Generic(0, int: cobj + 0)'))
+_LVOPS = (('assigned', '%s = 3;'), ('compound-assigned', '%s += 3;'), ('post-incremented', '%s++;'), ('pre-decremented', '--%s;'), ('address-taken', '(void)&%s;'))
+for _n, _e in _NONLV:
+    for _on, _o in _LVOPS:
+        add('non-lvalue/%s/%s' % (_n, _on), 'stmt', _o % _e)
 add('assign-to-incomplete-struct-deref', 'stmt', 'struct cinc *pi = 0; *pi = *pi;')
 # every path by which a const qualifier reaches an lvalue x every operator that modifies its operand (6.5.16p2, 6.5.2.4p1, 6.5.3.1p1) and the
 # initialisation that would discard the qualifier (6.5.16.1p1); the qualifier may sit on the object, on an enclosing aggregate, on the pointed-to
